@@ -29,6 +29,7 @@ type schedLink struct {
 	peerEOF bool     // peer closed; delivered as the last "chunk"
 	eofDelivered bool
 	writes  [][]byte // everything the client wrote
+	direct  bool     // peer output is delivered at once (no network thread)
 
 	// peer side (real synchronisation: the peer goroutine is not managed)
 	mu       sync.Mutex
@@ -102,6 +103,15 @@ func (l *schedLink) settle() {
 	out, eof := l.out, l.outEOF
 	l.out = nil
 	l.mu.Unlock()
+	if l.direct {
+		for _, c := range out {
+			l.inbuf = append(l.inbuf, c...)
+		}
+		if eof && !l.peerEOF {
+			l.peerEOF, l.eofDelivered = true, true
+		}
+		return
+	}
 	l.pending = append(l.pending, out...)
 	if eof && !l.peerEOF {
 		l.peerEOF = true
